@@ -15,6 +15,7 @@
 package blockfetch
 
 import (
+	"bytes"
 	"context"
 	"errors"
 	"fmt"
@@ -445,18 +446,39 @@ func (c *Client) GetBlock(point pcommon.Point) (ledger.Block, error) {
 	// Wait for BatchDone before returning to ensure the protocol state machine
 	// completes the batch properly (transitions back to Idle state).
 	// handleBatchDone signals batchDoneChan in GetBlock mode instead of unlocking.
-	select {
-	case <-c.batchDoneChan:
-		// BatchDone was processed successfully
-		c.releaseBusy(token)
-		return block, nil
-	case <-c.blockChan:
-		c.releaseBusy(token)
-		return nil, errors.New("block-fetch: more than one block for a single-block request")
-	case <-protocolDone:
-		// Shutdown while waiting for BatchDone
-		c.releaseBusy(token)
-		return nil, protocol.ErrProtocolShuttingDown
+	// Surplus blocks are drained so that the receive loop is never parked in
+	// handleBlock, and make the call fail.
+	surplus := 0
+	for {
+		select {
+		case _, ok := <-c.blockChan:
+			if !ok {
+				c.releaseBusy(token)
+				return nil, protocol.ErrProtocolShuttingDown
+			}
+			surplus++
+		case <-c.batchDoneChan:
+			// BatchDone was processed successfully
+			c.releaseBusy(token)
+			if surplus > 0 {
+				return nil, fmt.Errorf(
+					"block-fetch: server sent %d blocks for a single-block request",
+					surplus+1,
+				)
+			}
+			if !bytes.Equal(block.Hash().Bytes(), point.Hash) {
+				return nil, fmt.Errorf(
+					"block-fetch: received block %x, requested %x",
+					block.Hash().Bytes(),
+					point.Hash,
+				)
+			}
+			return block, nil
+		case <-protocolDone:
+			// Shutdown while waiting for BatchDone
+			c.releaseBusy(token)
+			return nil, protocol.ErrProtocolShuttingDown
+		}
 	}
 }
 
